@@ -41,6 +41,7 @@ def gen_cases(tier, seed):
     for i, tz in enumerate(("JST-9", "EST5", "IST-5:30", "CHAST-12:45")):
         cases.append({"kind": "next", "n": n // 2, "seed": seed * 1000 + 400 + i, "tz": tz})
         cases.append({"kind": "overdue", "n": n // 4, "seed": seed * 1000 + 500 + i, "tz": tz})
+        cases.append({"kind": "wire", "n": 200 if tier == "quick" else 1500, "seed": seed * 1000 + 700 + i, "tz": tz})
     return cases
 
 
